@@ -732,6 +732,55 @@ pub(crate) mod verif_hooks {
         t.has_unknown_replicas
     }
 
+    /// A tablet whose only replica is the node `replica_id`; the node is known (resolved) iff `resolved`.
+    pub(crate) fn make_tablet_on(first: i64, last: i64, replica_id: u128, resolved: bool) -> Tablet {
+        let raw = RawTabletReplicas {
+            replicas: vec![(Uuid::from_u128(replica_id), 0)],
+        };
+        let known = |id: Uuid| {
+            resolved.then(|| {
+                std::sync::Arc::new(crate::cluster::node::Node::verif_new(id, Some("dc".to_owned()), None))
+            })
+        };
+        match TabletReplicas::from_raw_replicas(&raw, known) {
+            Ok(replicas) => Tablet {
+                first_token: Token::new(first),
+                last_token: Token::new(last),
+                replicas,
+                failed: None,
+            },
+            Err((replicas, _)) => Tablet {
+                first_token: Token::new(first),
+                last_token: Token::new(last),
+                replicas,
+                failed: Some(raw),
+            },
+        }
+    }
+
+    /// `TableTablets::perform_maintenance` with the given removed node ids, currently known node ids and (possibly empty) re-created ids.
+    pub(crate) fn table_maintain(t: &mut TableTablets, removed: &[u128], known: &[u128], recreated: &[u128]) {
+        use std::collections::{HashMap, HashSet};
+        let node = |id: &u128| {
+            (
+                Uuid::from_u128(*id),
+                std::sync::Arc::new(crate::cluster::node::Node::verif_new(
+                    Uuid::from_u128(*id),
+                    Some("dc".to_owned()),
+                    None,
+                )),
+            )
+        };
+        let removed: HashSet<Uuid> = removed.iter().map(|id| Uuid::from_u128(*id)).collect();
+        let known: HashMap<Uuid, _> = known.iter().map(node).collect();
+        let recreated: HashMap<Uuid, _> = recreated.iter().map(node).collect();
+        t.perform_maintenance(&removed, &known, &recreated)
+    }
+
+    pub(crate) fn tablet_is_unresolved(t: &TableTablets, i: usize) -> bool {
+        t.tablet_list[i].failed.is_some()
+    }
+
     pub(crate) fn info_new() -> super::TabletsInfo {
         super::TabletsInfo::new()
     }
